@@ -28,7 +28,7 @@ OWNS = {
     "C07": "Consume (a failing node counts once), Exhausted, StubOK (error counts and node list)",
 }
 
-TIERS = {"quick": (8, 4, 14), "thorough": (48, 6, 16)}
+TIERS = {"quick": (12, 4, 14), "thorough": (48, 6, 16)}
 
 
 def design_level(work, tier):
